@@ -9,7 +9,7 @@ from cashews.key import get_cache_key, get_cache_key_template
 from cashews.ttl import ttl_to_seconds
 
 from ._exception import RaiseException, return_or_raise
-from .defaults import context_cache_detect
+from .defaults import _empty, context_cache_detect
 
 if TYPE_CHECKING:  # pragma: no cover
     from cashews._typing import TTL, CallableCacheCondition, DecoratedFunc
@@ -59,14 +59,26 @@ def iterator(
                     value=cached,
                 )
                 while True:
-                    chunk = await backend.get(_cache_key + f":{chunk_number}")
-                    if not chunk:
+                    chunk = await backend.get(_cache_key + f":{chunk_number}", default=_empty)
+                    if chunk is _empty:
                         return
                     yield return_or_raise(chunk)
                     chunk_number += 1
 
             start = time.monotonic()
-            _to_cache = False
+            # chunks are stored only once the run is over and only if each of them was accepted,
+            # all with the marker's lifetime: a replay never mixes two runs and never has holes
+            chunks: list = []
+            complete = True
+
+            async def _store():
+                expire = _ttl - time.monotonic() + start
+                if expire <= 0:  # the run took longer than the ttl (0 would mean "store forever")
+                    return
+                for number, _chunk in enumerate(chunks):
+                    await backend.set(_cache_key + f":{number}", _chunk, expire=expire)
+                await backend.set(_cache_key, True, expire=expire)
+
             _async_iterator = async_iterator(*args, **kwargs)
             while True:
                 try:
@@ -75,19 +87,17 @@ def iterator(
                     break
                 except Exception as exc:
                     cond_res = condition(exc, args, kwargs, key=_cache_key)
-                    if cond_res and isinstance(cond_res, Exception):
-                        _to_cache = True
-                        await backend.set(_cache_key + f":{chunk_number}", RaiseException(exc), expire=_ttl)
-                        await backend.set(_cache_key, True, expire=_ttl - time.monotonic() + start)
+                    if complete and cond_res and isinstance(cond_res, Exception):
+                        chunks.append(RaiseException(exc))
+                        await _store()
                     raise exc
                 yield chunk
-                if condition(chunk, args, kwargs, key=_cache_key):
-                    _to_cache = True
-                    await backend.set(_cache_key + f":{chunk_number}", chunk, expire=_ttl)
-                chunk_number += 1
-            if _to_cache:
-                executing_time = time.monotonic() - start
-                await backend.set(_cache_key, True, expire=_ttl - executing_time)
+                if complete and condition(chunk, args, kwargs, key=_cache_key):
+                    chunks.append(chunk)
+                else:
+                    complete = False
+            if complete and chunks:
+                await _store()
             return
 
         return _wrap  # type: ignore[return-value]
